@@ -17,8 +17,8 @@ MLENS = [0, 1, 55, 56, 63, 64, 65, 119, 120, 300]
 
 def params(tier):
     if tier == "quick":
-        return dict(maxlen=300, max3=130, maxkey=200, extra=[])
-    return dict(maxlen=1500, max3=400, maxkey=300, extra=[4095, 4096, 65537, 1000003])
+        return dict(maxlen=300, max3=130, maxkey=200, extra=[], huge=[2**29 - 1, 2**29])
+    return dict(maxlen=1500, max3=400, maxkey=300, extra=[4095, 4096, 65537, 1000003], huge=[2**29 - 1, 2**29, 2**29 + 1, 2**32 + 5])
 
 def build(ctx):
     return ctx.compile("c17", [ctx.verif("harness/c17_sha256.cpp"), ctx.repo("src/Crypto/Sha256.cpp"),
@@ -33,7 +33,14 @@ def args_for(ctx, p):
             for kl in range(p["maxkey"] + 1):
                 for ml in MLENS:
                     f.write("M:%d:%d:%d %s\n" % (g, kl, ml, hmac.new(gen(g, kl, 7), gen(g, ml, 3), hashlib.sha256).hexdigest()))
-    return ["--table", table, "--maxlen", str(p["maxlen"]), "--max3", str(p["max3"]), "--maxkey", str(p["maxkey"]),
+    with open(table, "a") as f:
+        block = bytes(1 << 20)
+        for L in p["huge"]:
+            h = hashlib.sha256(); done = 0
+            while done < L:
+                n = min(len(block), L - done); h.update(block[:n]); done += n
+            f.write("Z:%d %s\n" % (L, h.hexdigest()))
+    return ["--huge", ",".join(map(str, p["huge"])), "--table", table, "--maxlen", str(p["maxlen"]), "--max3", str(p["max3"]), "--maxkey", str(p["maxkey"]),
             "--extra", ",".join(map(str, p["extra"]))]
 
 def run(ctx):
@@ -41,14 +48,14 @@ def run(ctx):
     b = build(ctx)
     ctx.run_shards(b, args_for(ctx, p))
     c = ctx.counters
-    ev = c.get("oneshot", 0) + c.get("twoway", 0) + c.get("threeway", 0) + c.get("hmac", 0) + \
+    ev = c.get("huge", 0) + c.get("oneshot", 0) + c.get("twoway", 0) + c.get("threeway", 0) + c.get("hmac", 0) + \
         c.get("reuse_after_finalize", 0) + c.get("reuse_after_reset", 0)
     cov = {"evaluations": ev, "distinct_nontrivial": c.get("distinct_nontrivial", 0),
            "rule": "every (generator in zeros/0xFF/counter/LCG) x (length 0..%d%s) one-shot vs hashlib; every 2-way split; "
                    "every 3-way split for lengths <= %d; reuse after finalize/reset; HMAC key lengths 0..%d x message lengths %s "
-                   "vs python hmac. distinct_nontrivial counts (generator,length,split) tuples whose chunks are all non-empty, "
+                   "vs python hmac; zero messages of %s bytes fed in 1 MiB and in 1000003-byte chunks (length field and counter beyond 32 bits). distinct_nontrivial counts (generator,length,split) tuples whose chunks are all non-empty, "
                    "plus every hmac (generator,keylen,msglen)" % (p["maxlen"], "+" + str(p["extra"]) if p["extra"] else "",
-                                                                   p["max3"], p["maxkey"], MLENS),
+                                                                   p["max3"], p["maxkey"], MLENS, p["huge"]),
            "exhaustive": True,
            "bounds": p}
     return ctx.finish("exploration", cov, ["Python hashlib/hmac is the reference implementation",
